@@ -83,8 +83,9 @@ def run_family(fam, prop_id, tier, known, stats):
             obs = '(harness-exception %s)' % type(e).__name__
             c['_trace'] = traceback.format_exc()[-800:]
         if i in model_out:
-            mo = fam.normalize_model(model_out[i])
-            if 'UNMODELLED' in mo:
+            raw = model_out[i]
+            mo = fam.normalize_model(raw)
+            if 'UNMODELLED' in raw:
                 discarded += 1
             elif mo != obs:
                 disagreements.append(dict(family=fam.name, case=fam.describe(c), model=mo[:4000], impl=obs[:4000],
